@@ -36,7 +36,7 @@ def corpus():
          'StK', 'SmStK', 'SmSt',          # exact ties (run, not judged)
          'SmWK', 'SpSWK']                 # forced flush
     return ([c for c in (B.letters_case(T, w) for T in B.TIMEOUTS for w in W + retry_words()) if c]
-            + [B.burst_case(1100, 'D')])      # 1100 plain calls in ONE loop pass: one call with all of them, timeout later
+            + [B.burst_case(1040, 'D')])      # 1040 plain calls in ONE loop pass: one call with all of them, timeout later
 
 
 def retry_words():
@@ -87,7 +87,7 @@ RULE = ('cases = (timeout T in {8,100,1024} ticks, list of external events) run 
         '{plain, list, empty list, Advance T-1 / T+1 / 2T+1, FnOk, FnFail, wait(cancel=False)} + the arrival grid '
         '(<=4 / <=5 submissions, gaps {0,T-1,T+1,2T+1}, 7 response modes of the function incl. durations 0 / <T / >T and '
         'fail-then-ok, 3 timeouts; again with <=3 / <=4 submissions and the function failing two / three times in a row); random layer: programs up to 30 events incl. exact-tie gaps (T), iterators, duplicates, '
-        'awaitables and async iterables.  Every program without Shutdown ends with the settle tail [FnOk; Advance T+1; FnOk].  '
+        'awaitables and async iterables.  Bursts of n plain calls in ONE loop pass (n = 2..513 exhaustive layer, one of ~1100 in the corpus, 1500 in thorough); async producers are async generators or class-based async iterators without aclose (by checksum of the event list).  Every program without Shutdown ends with the settle tail [FnOk; Advance T+1; FnOk].  '
         'non-trivial = at least one call started, at least two submissions, no exact timer tie (decided by '
         'Case_C08.nontrivial inside Coq); distinct = distinct (case, trace) pairs among those')
 EXHAUSTIVE_NOTE = ('all event words up to length 5 (quick) / 6 (thorough) over the 9-letter C08 alphabet at T=8, and the full '
